@@ -524,6 +524,22 @@ def rule_c11_best_states(prog: Program, col: Collector) -> None:
                             okg = True
     col.check(okg, ref.where(vstore[0].node if vstore else None), ref.short, "replacement happens iff the current mean is LARGER than the candidate's mean (or the row is still the placeholder)",
               construct="best-compare", necessity="best-states reports for each size the MINIMUM mean gap over the sampled games")
+    # "no set of this size seen yet" must not be encoded as a value a mean gap can take
+    if vstore:
+        for f in vstore[0].ctx:
+            if f[0] == "if" and f[2] is True:
+                t = f[1]
+                disj = list(t[2]) if t[0] == "bool" and t[1] == "or" else [t]
+                for d in disj:
+                    if d[0] == "cmp" and d[1] == "==" and any(is_call_to(x, "numpy.mean") or (x[0] == "index" and x[2] == steps) for x in subterms(d)):
+                        other = d[3] if (is_call_to(d[2], "numpy.mean") or d[2][0] == "index") else d[2]
+                        if other[0] == "un" and other[1] in ("-", "+") and other[2][0] == "const":
+                            other = other[2]          # -1 is a unary minus on a literal
+                        finite = other[0] == "const" and isinstance(other[1], (int, float)) and not isinstance(other[1], bool) and other[1] == other[1]
+                        col.check(not finite, ref.where(vstore[0].node), ref.short,
+                                  f"the 'nothing seen yet' test does not compare the row's mean with a finite value ({short(other, 20)})", construct="best-value-sentinel",
+                                  necessity="a set whose real mean gap equals the sentinel (-1 occurs for games outside the assumed class, which 'any game' includes) is treated as "
+                                            "an empty slot and overwritten by a worse set; and sizes for which no set exists are reported with the sentinel as their 'minimum'")
     for e in vstore + astore[:1]:
         same_guard = [f[:3] for f in e.ctx] == [f[:3] for f in vstore[0].ctx]
         col.check(same_guard, ref.where(e.node), ref.short, "values and actions are replaced under the same condition", construct="best-same-guard",
